@@ -480,9 +480,10 @@ class TimedStream(Lane):
             return NONE()
 
         def cur():
-            a = d['answers'][min(idx[0], len(d['answers']) - 1)]; idx[0] += 1; return a
-        c.env = {'recv': lambda ctx, f: (waits.append('recv'), item(cur()))[1],
-                 'timeout': lambda ctx, f: (waits.append('timeout'), (lambda a: Err(Opaque('Elapsed')) if a == 'elapsed' else Ok(item(a)))(cur()))[1]}
+            # beyond the scripted answers nothing more is queued
+            a = d['answers'][idx[0]] if idx[0] < len(d['answers']) else 'nothing'; idx[0] += 1; return a
+        c.env = {'recv': lambda ctx, f: (waits.append('recv'), (lambda a: PENDING if a == 'nothing' else item(a))(cur()))[1],
+                 'timeout': lambda ctx, f: (waits.append('timeout'), (lambda a: Err(Opaque('Elapsed')) if a in ('elapsed', 'nothing') else Ok(item(a)))(cur()))[1]}
         results = []
         try:
             for a in d['answers']:
